@@ -111,7 +111,12 @@ JudgeSession(j) ==
   If(\E q \in DOMAIN j.calls : \E k \in DOMAIN j.calls[q].same : ~j.calls[q].same[k], "C17:result-depends-on-history")
   \cup If(~j.memsame, "C17:argument-changed")
 
-Judge(j) == IF j.kind = "walk" THEN JudgeWalk(j) ELSE IF j.kind = "session" THEN JudgeSession(j) ELSE JudgeAgg(j)
+\* kind "engage" (beyond the listed properties, owner X00): the pool is engaged exactly when the cube has more than
+\* two sub-cubes and rows x sub-cubes reaches the threshold (BIG_REGIONS, patched to a small number by the harness)
+JudgeEngage(j) == If(j.parallel # (j.T > 2 /\ j.n * j.T >= j.big), "X00:pool-engagement-predicate")
+
+Judge(j) == IF j.kind = "walk" THEN JudgeWalk(j) ELSE IF j.kind = "session" THEN JudgeSession(j)
+            ELSE IF j.kind = "engage" THEN JudgeEngage(j) ELSE JudgeAgg(j)
 
 \* expected exact values of the cells whose value was judged different (for the numeric re-check)
 EmitExpected(j) ==
